@@ -646,6 +646,20 @@ class C11(PropBase):
                 items.append(("F", 1, 1))
                 add("exh_public", fmt_case(0, 64, dom, items))
 
+    def extremes(self, rng, items):
+        """payload fields (parameter sizes, line numbers, call lines) at the ends of their u32 range: a record whose payload is 0 or
+        u32::MAX is a record like any other (the class of seeded C11-5: records dropped at collection time by a condition on a field)"""
+        ext = [0, U32 - 1, 1 << 31]
+        idx = {"P": 2, "U": 3, "L": 3, "I": 2, "W": 4}
+        out = []
+        for it in items:
+            if it[0] in idx and rng.chance(1, 3):
+                it = list(it)
+                it[idx[it[0]]] = rng.choice(ext)
+                it = tuple(it)
+            out.append(it)
+        return out
+
     def gen_nested(self, rng, scale_hi):
         """well-formed file: disjoint FUNCs, disjoint line tables, properly nested inline tree"""
         items = []
@@ -858,6 +872,9 @@ class C11(PropBase):
             if rng.chance(1, 3):
                 items = self.sparsify(rng, items)
                 kind += "+sparse_ids"
+            if rng.chance(1, 6):
+                items = self.extremes(rng, items)
+                kind += "+extreme_payloads"
             extra = self.gen_modules(rng, mb, msize) if rng.chance(1, 2) else []
             if extra:
                 kind += "+modules"
@@ -1035,6 +1052,17 @@ class C11(PropBase):
                 return "more inline frames (%d) at %d than inline depths covering the address" % (len(inl), x)
             if not any(e[0] == 0 for e in cover):
                 return "inline frames at %d without a depth-0 INLINE record covering the address" % x
+            # "with their call sites": a frame is located at the call site recorded by a covering INLINE record of depth >= 1
+            # (the next inlined call) or, innermost, at a line record covering the address (line 0 = no line); nothing else
+            sites = {(c.files.get(e[3]), e[4]) for e in cover if e[0] >= 1}
+            lsites = {(c.files.get(l[3]), l[2] if l[2] != 0 else None) for l in f.lines + f.flines if in_r(rng_line(l[0], l[1]), x)}
+            for k, (n, fl, ln) in enumerate(inl):
+                if (fl, ln) in sites or (fl, ln) in lsites or (fl, ln) == (None, None):
+                    continue
+                return ("inline frame %s at %d is located at (file %s, line %s): neither the call site of a covering INLINE record of depth >= 1 "
+                        "nor a line record covering the address" % (n, x, fl, ln))
+            if inl[-1][1:] != (None, None) and inl[-1][1:] not in lsites and len(inl) >= len({e[0] for e in cover}):
+                return "innermost inline frame %s at %d is not located at a line record covering the address" % (inl[-1], x)
         return None
 
     def nontrivial(self, case, ans):
